@@ -57,6 +57,38 @@ def _subjects(n, k, shift):
 NBS_X = _subjects(4, 3, 0.0)
 NBS_Y = _subjects(4, 3, 2.0)
 
+def signed_ring(n, directed):
+    """a sparse signed network on n nodes: every node linked to its next three neighbours, signs + - +, distinct weights"""
+    W = np.zeros((n, n))
+    for i in range(n):
+        for d, sg in ((1, 1.0), (2, -1.0), (3, 1.0)):
+            w = sg * (1.0 + ((i * 3 + d) % 7) / 8.0)
+            W[i, (i + d) % n] = w
+            if not directed:
+                W[(i + d) % n, i] = w
+    return W
+
+
+def signed_dense(n, directed):
+    """a third of the cells positive, a third negative, a third empty (by a fixed arithmetic pattern), weights 1..1.5"""
+    i, j = np.indices((n, n))
+    lo, hi = (i, j) if directed else (np.minimum(i, j), np.maximum(i, j))
+    pat = (lo * 7 + hi * 3) % 3
+    W = np.where(pat == 1, 1.0, np.where(pat == 2, -1.0, 0.0)) * (1 + ((lo + hi) % 5) / 8.0)
+    np.fill_diagonal(W, 0)
+    return W
+
+
+LARGE_SIGNED_DENSE = {'randmio_und_signed': ((signed_dense(220, False), 0.01), {}),
+                      'randmio_dir_signed': ((signed_dense(220, True), 0.005), {}),
+                      'null_model_und_sign': ((signed_dense(220, False),), {'bin_swaps': 0.01, 'wei_freq': 0.1}),
+                      'null_model_dir_sign': ((signed_dense(220, True),), {'bin_swaps': 0.005, 'wei_freq': 0.1})}
+
+# beyond 216 nodes n^4 no longer fits a 32-bit integer: the node picker of the signed rewirers may take another path
+LARGE_SIGNED = {'randmio_und_signed': ((signed_ring(220, False), 0.02), {}), 'randmio_dir_signed': ((signed_ring(220, True), 0.01), {}),
+                'null_model_und_sign': ((signed_ring(220, False),), {'bin_swaps': 0.02, 'wei_freq': 1}),
+                'null_model_dir_sign': ((signed_ring(220, True),), {'bin_swaps': 0.01, 'wei_freq': 1})}
+
 TABLE = {
     'randmio_und': [((BU5, 1), {}), ((WU5, 1), {})],
     'randmio_und_connected': [((BU5, 1), {}), ((WU5, 2), {})],
